@@ -137,3 +137,31 @@ Proof. vm_compute. reflexivity. Qed.
 Example C12_example_no_delimiter :
   ingest [s2l "xy"; s2l "z"] C12_nl never_fail = ([], RetEOF) /\ ingest [] C12_nl never_fail = ([], RetEOF).
 Proof. vm_compute. split; reflexivity. Qed.
+
+From AM Require Import Model.IngestIR Gen.IngestProg Proofs.IngestIRTie.
+Open Scope nat_scope.
+Open Scope list_scope.
+
+(* ---------- the loop of the model is the loop of the source ----------
+   Gen/IngestProg.v is REGENERATED on every run from NamedPipeIngester.Ingest (set-up and loop), the two
+   wrapper Ingest methods and both Process callbacks.  For every chunking of the stream, every delimiter
+   and every callback, [ingest] of Model/Framing.v (about which the C12 theorems above are proved) IS the
+   interpretation of the generated loop, with bufio.Reader.ReadString given its stated contract
+   [read_string]: the callback receives the line exactly as ReadString returned it, and what Ingest returns
+   is the reader's own end-of-stream error or the failing callback's own error, never nil, never wrapped. *)
+Theorem C12_ingest_from_source : forall cs d cb, run_ingest gen_Ingest cs d cb = Some (ingest cs d cb).
+Proof. exact ingest_from_source. Qed.
+Print Assumptions C12_ingest_from_source.
+
+Theorem C12_errors_unwrapped_from_source : forall cs d cb, exists dl e,
+  run_ingest_raw gen_Ingest cs d cb = Some (dl, Some e) /\
+  (e = VEOF \/ exists k r, e = VCb k /\ length dl = S k /\ nth_error dl k = Some r /\ cb k r = false).
+Proof. exact ingest_errors_unwrapped. Qed.
+Print Assumptions C12_errors_unwrapped_from_source.
+
+(* both wrappers (audit log, sshd log) pass the newline delimiter and their own Process as callback *)
+Theorem C12_wrapped_ingest_from_source : forall cs cb,
+  run_ingest gen_Ingest cs (ascii_of_nat (wr_delim gen_auditlog_Ingest)) cb = Some (ingest cs newline cb) /\
+  run_ingest gen_Ingest cs (ascii_of_nat (wr_delim gen_syslog_Ingest)) cb = Some (ingest cs newline cb).
+Proof. exact wrapped_ingest_from_source. Qed.
+Print Assumptions C12_wrapped_ingest_from_source.
